@@ -115,8 +115,10 @@ class FakeSock:
             raise OSError(_errno.EBADF, "Bad file descriptor")
         if not c.queue:
             raise BlockingIOError(_errno.EAGAIN, "Resource temporarily unavailable")
-        k, bad, hs = c.queue.pop(0)
+        item = c.queue.pop(0)
+        k, bad, hs = item[:3]
         n = c.world.new_core(peer=ca_of(k), name=("127.0.0.1", c.world.port), badpeer=bad, hs=hs, role="accepted")
+        n.chunks.extend(item[3] if len(item) > 3 else [])   # bytes already in flight (C12)
         return FakeSock(n), ca_of(k)
 
     def connect_ex(self, ha):
